@@ -114,6 +114,8 @@ def run(ctx, rep):
         from props import c13
         c13.check_cmp(crate, rep, cfg)      # == / < on numbers compare exact mathematical values (no lossy cast of a compared operand)
         check_str_eq(crate, rep, cfg)
+        check_keynum_ord(crate, rep, cfg)
+        c13.check_conv(crate, rep, cfg)     # a value becomes a key / a compared number without a saturating float->int or lossy cast
     pos = ctx.posctl()
     check_posctl(ctx, pos)
 
@@ -377,7 +379,13 @@ def check_key(crate, rep, cfg):
                 rep.ok("C15.KEYNUM", key, f.where(bb, idx), what)
             else:
                 rep.bad("C15.KEYNUM", key, f.where(bb, idx), what + " — VIOLATED: unguarded sign-changing cast makes negative keys alias large unsigned ones")
-    rep.floor("C15.KEYNUM", "signed→unsigned casts in KeyNumber Eq/Ord/Hash [%s]" % cfg, n_casts, 5)
+    # the same conversion spelled `u128::try_from(v)` (Err exactly for negatives) needs no guard; it counts towards the floor
+    n_try = 0
+    for suffix in ("<value::key::KeyNumber as std::cmp::PartialEq>::eq", "<value::key::KeyNumber as std::cmp::Ord>::cmp",
+                   "<value::key::KeyNumber as std::hash::Hash>::hash"):
+        f = crate.one(suffix)
+        n_try += sum(1 for bb, t in f.calls() if callee_def(t).endswith("TryFrom::try_from") and "u128" in str(t["f"].get("self_ty", "")) + str(t["f"].get("targs", "")))
+    rep.floor("C15.KEYNUM", "signed→unsigned conversions (guarded casts / try_from) in KeyNumber Eq/Ord/Hash [%s]" % cfg, n_casts + n_try, 5)
     # Hash agrees with Eq across the two representations: whatever the Signed arm feeds the hasher for a value that may be non-negative,
     # the Unsigned arm feeds too (same sequence of (type, constant) writes) — equal keys of different width hash alike
     h = crate.one("<value::key::KeyNumber as std::hash::Hash>::hash")
@@ -503,3 +511,32 @@ def check_str_eq(crate, rep, cfg):
         ok = n_as >= 2 and not direct
         rep.add("C15.STR", "C15.STR:%s:by-content" % suffix, ok, b.where(0), "%s on two strings compares the `as_str()` of both (%d as_str calls)" % (what, n_as)
                 + ("" if ok else " — VIOLATED: compares SmartString values directly: %s" % direct))
+
+
+def check_keynum_ord(crate, rep, cfg):
+    """C15.KEYNUM — integer keys are ordered numerically: two Signed payloads are compared by i128::cmp on the payloads themselves, two
+    Unsigned ones by u128::cmp; no magnitude / absolute-value form takes part (it orders negatives backwards)."""
+    c = [b for p_, b in crate.bodies.items() if p_.endswith("KeyNumber as std::cmp::Ord>::cmp")]
+    if len(c) != 1:
+        rep.anchor_missing("C15.KEYNUM", "<KeyNumber as Ord>::cmp")
+        return
+    b = c[0]
+    rep.analysed(b)
+    bodies = crate.with_closures(b)
+    mags = sorted({callee_def(t).rsplit("::", 1)[-1] for bd in bodies for bb, t in bd.calls()
+                   if callee_def(t).rsplit("::", 1)[-1] in ("unsigned_abs", "abs", "wrapping_abs", "checked_abs", "abs_diff", "to_bits", "to_be_bytes", "to_le_bytes", "to_ne_bytes", "signum")})
+    tr = Tracer(b)
+    direct = {"i128": False, "u128": False}
+    for bb, t in b.calls():
+        if callee_def(t) == "std::cmp::Ord::cmp" and t["f"].get("self_ty") in ("i128", "u128"):
+            ty = t["f"]["self_ty"]
+            var = "as:Signed" if ty == "i128" else "as:Unsigned"
+            sides = []
+            for a in t["args"]:
+                ls = [l for l in tr.operand(a) if l.kind != "cycle"]
+                sides.append(bool(ls) and all(l.kind == "param" and var in l.projs and not any(p.startswith("cast:") for p in l.projs) for l in ls))
+            if all(sides) and {next(iter(tr.operand(t["args"][0]))).detail, next(iter(tr.operand(t["args"][1]))).detail} == {1, 2}:
+                direct[ty] = True
+    ok = not mags and all(direct.values())
+    rep.add("C15.KEYNUM", "C15.KEYNUM:ord:same-sign-pairs-compare-payloads", ok, b.where(0), "KeyNumber::cmp compares Signed/Signed with i128::cmp and Unsigned/Unsigned with "
+            "u128::cmp on the payloads themselves" + ("" if ok else " — VIOLATED: %s" % (("uses %s" % mags) if mags else "direct payload comparison missing for %s" % sorted(k for k, v in direct.items() if not v))))
